@@ -95,6 +95,10 @@ def check(ctx):
         uses = [n for n in walk_no_nested(asg) if isinstance(n, ast.Subscript) and unparse(n.value) == "d"]
         bad = [u for u in uses if unparse(u.slice) != "key" or not dominates(asg, cn[0][0], u)]
         ctx.ob("NORM.canonical.dominates-uses", asg, f"_assign: d is only indexed by the canonical key ({len(uses)} uses)", not bad and bool(uses), "" if not bad else f"lines {[u.lineno for u in bad]}")
+    # the rollback path is made of canonical keys (it is replayed against the config by __exit__)
+    paths = find("path = path + (M_k,)", asg, nested=False)
+    ok = len(paths) == 1 and unparse(paths[0][1]["M_k"]) == "key" and bool(cn) and dominates(asg, cn[0][0], paths[0][0]) and [d[2] for d in reaching_of(asg).reaching(paths[0][0], "key")] == [cn[0][0]]
+    ctx.ob("NORM.canonical.record-path", asg, "_assign: path = path + (key,) with the canonical key", ok, "" if ok else "the rollback record is keyed by the caller's spelling: __exit__ restores under a different key than was changed")
     ctx.count("canonical_name_sites", n_norm)
     ctx.floor("canonical_name_sites", 4)
     cnf = mod.func("canonical_name")
@@ -107,42 +111,58 @@ def check(ctx):
     ctx.floor("assign_store_sites", 2)
     g = cfg_of(asg)
     appends = find("self._record.append(M_t)", asg, nested=False)
-    tags = set()
+    # the recorded entries: literal tuples, or a local holding one of several literal tuples
+    entries = []  # (append node, tuple node, statement where the tuple is built)
     for n, b in appends:
         t = b["M_t"]
-        if isinstance(t, ast.Tuple) and len(t.elts) == 3:
-            tags.add(const(t.elts[0]))
-            ok = unparse(t.elts[1]) == "path"
-            ctx.ob("TAB.ops.record-shape", n, "record entry is (op, path, old value)", ok)
+        if isinstance(t, ast.Tuple):
+            entries.append((n, t, n))
+        elif isinstance(t, ast.Name):
+            for nm, val, st_ in reaching_of(asg).reaching(n, t.id):
+                if isinstance(val, ast.Tuple):
+                    entries.append((n, val, st_))
+                else:
+                    ctx.ob("TAB.ops.record-shape", n, "record entry is (op, path, old value)", False, f"{t.id} may be {unparse(val) if isinstance(val, ast.AST) else val}")
         else:
             ctx.ob("TAB.ops.record-shape", n, "record entry is (op, path, old value)", False, unparse(t))
+    tags = set()
+    for n, t, st_ in entries:
+        ok = len(t.elts) == 3 and unparse(t.elts[1]) == "path"
+        if len(t.elts) == 3:
+            tags.add(const(t.elts[0]))
+        ctx.ob("TAB.ops.record-shape", st_, f"record entry {unparse(t)} is (op, path, old value)", ok)
+    rec_false = {nd.idx for nd in g.nodes if nd.kind == "branch" and nd.label[0] == "if" and isinstance(nd.label[1], ast.AST) and unparse(nd.label[1]) == "record" and nd.label[2] is False}
+    app_nodes = {g.node_of(n) for n, _ in appends}
     for st in stores:
-        # on every path from entry to the store: a record.append happened, or `record` is false
-        via = {g.node_of(n) for n, _ in appends}
-        # paths on which `record` is false: branch nodes (record, False)
-        for nd in g.nodes:
-            if nd.kind == "branch" and nd.label[0] == "if" and isinstance(nd.label[1], ast.AST) and unparse(nd.label[1]) == "record" and nd.label[2] is False:
-                via.add(nd.idx)
-        ok = g.all_paths_pass(g.entry, g.node_of(st), via)
-        ctx.ob("DOM.record.before-store", st, f"{unparse(st)}: recorded before the store unless record is False", ok, "" if ok else "a configuration store can happen without a rollback record")
-    # replace records the old value, insert only when absent
-    for n, b in appends:
-        t = b["M_t"]
-        tag = const(t.elts[0]) if isinstance(t, ast.Tuple) and t.elts else None
-        facts = inline_facts(asg, n)
+        before = g.all_paths_pass(g.entry, g.node_of(st), app_nodes | rec_false)
+        after = g.all_paths_pass(g.node_of(st), g.exit, app_nodes | rec_false)
+        # "after" idiom: nothing that can raise between the store and the record
+        clean = True
+        if after and not before:
+            for a in app_nodes:
+                for mid in g.between(g.node_of(st), a) - {g.node_of(st), a}:
+                    nd = g.nodes[mid]
+                    if nd.kind == "stmt" and not isinstance(nd.ast, ast.If):
+                        clean = False
+        ok = before or (after and clean)
+        ctx.ob("DOM.record.with-store", st, f"{unparse(st)}: every store is recorded (before it, or right after it succeeded) unless record is False", ok, "" if ok else "a configuration store can happen without a rollback record")
+    # replace records the old value (captured before the store), insert only when absent
+    for n, t, st_ in entries:
+        tag = const(t.elts[0]) if t.elts else None
+        facts = inline_facts(asg, st_)
         if tag == "replace":
-            ok = has_fact(facts, "key in d", True) is not None and unparse(t.elts[2]) == "d[key]"
-            ctx.ob("DOM.record.replace-old-value", n, "('replace', path, d[key]) only when key in d", ok)
+            ok = has_fact(facts, "key in d", True) is not None and unparse(t.elts[2]) == "d[key]" and all(not (g.dominates(g.node_of(s_), g.node_of(st_)) and g.node_of(s_) != g.node_of(st_)) for s_ in stores)
+            ctx.ob("DOM.record.replace-old-value", st_, "('replace', path, d[key]) built before the store, only when key in d", ok)
         elif tag == "insert":
             ok = has_fact(facts, "key in d", False) is not None
-            ctx.ob("DOM.record.insert-when-absent", n, "('insert', path, None) only when key not in d", ok)
+            ctx.ob("DOM.record.insert-when-absent", st_, "('insert', path, None) only when key not in d", ok)
     offs = [(n, b) for n, b in find("record = M_v", asg, nested=False)]
     for n, b in offs:
         ok = const(b["M_v"]) is False
         if ok:
-            ins = [a for a, ab in appends if isinstance(ab["M_t"], ast.Tuple) and const(ab["M_t"].elts[0]) == "insert"]
+            ins = {g.node_of(a_) for a_, t, _ in entries if t.elts and const(t.elts[0]) == "insert"}
             facts = inline_facts(asg, n)
-            ok = has_fact(facts, "key in d", False) is not None and g.all_paths_pass(g.entry, g.node_of(n), {g.node_of(a) for a in ins} | {nd.idx for nd in g.nodes if nd.kind == "branch" and nd.label[0] == "if" and isinstance(nd.label[1], ast.AST) and unparse(nd.label[1]) == "record" and nd.label[2] is False})
+            ok = has_fact(facts, "key in d", False) is not None and g.all_paths_pass(g.entry, g.node_of(n), ins | rec_false)
         ctx.ob("DOM.record.off-after-insert", n, "record = False only after the insert of the new ancestor was recorded", ok)
     rec_calls = [c for c in calls(asg, "_assign")]
     ok = bool(rec_calls) and all(unparse(kwarg(c, "record")) == "record" and unparse(c.args[0]) == "keys[1:]" and unparse(c.args[2]) == "d[key]" and unparse(c.args[3]) == "path" for c in rec_calls)
@@ -237,14 +257,16 @@ def check(ctx):
 VARIANTS = [
     (CFG, "        k = canonical_name(k, result)\n        try:\n            result = result[k]", "        try:\n            result = result[k]", "NORM.canonical"),
     (CFG, "        k = canonical_name(k, old)\n", "        k = canonical_name(k, new)\n", "NORM.canonical"),
-    (CFG, '                if key in d:\n                    self._record.append(("replace", path, d[key]))\n                else:\n                    self._record.append(("insert", path, None))', '                if key in d:\n                    self._record.append(("replace", path, d[key]))', "DOM.record.before-store"),
-    (CFG, '                if record:\n                    self._record.append(("insert", path, None))\n                d[key] = {}', '                d[key] = {}', "DOM.record"),
+    (CFG, "            if record:\n                self._record.append(op)\n", "", "DOM.record.with-store"),
+    (CFG, '                d[key] = {}\n                if record:\n                    self._record.append(("insert", path, None))', '                d[key] = {}', "DOM.record"),
     (CFG, "        for op, path, value in reversed(self._record):", "        for op, path, value in self._record:", "TAB.ops.reverse-order"),
     (CFG, '            if op == "replace":', '            if op == "replaced":', "TAB.ops"),
     (CFG, "            except BaseException:\n                # Leave the configuration as it was if any assignment fails\n                self.__exit__(None, None, None)\n                raise", "            except BaseException:\n                raise", "SCOPE.transactional-init"),
     (CFG, "    return json.loads(base64.urlsafe_b64decode(data.encode()).decode())", "    return json.loads(base64.b64decode(data.encode()).decode())", "CODEC.mirror"),
     (CFG, '            priority == "new"\n            or k not in old', '            priority == "new"\n            or k in old', "ALG.update.leaf"),
-    (CFG, '                    self._record.append(("replace", path, d[key]))', '                    self._record.append(("replace", path, value))', "DOM.record.replace-old-value"),
+    (CFG, '                op = ("replace", path, d[key])', '                op = ("replace", path, value)', "DOM.record.replace-old-value"),
+    (CFG, '            if key in d:\n                op = ("replace", path, d[key])\n            else:\n                op = ("insert", path, None)\n            d[key] = value\n', '            d[key] = value\n            if key in d:\n                op = ("replace", path, d[key])\n            else:\n                op = ("insert", path, None)\n', "DOM.record.replace-old-value"),
+    (CFG, "        key = canonical_name(keys[0], d)\n\n        path = path + (key,)", "        path = path + (keys[0],)\n\n        key = canonical_name(keys[0], d)", "NORM.canonical.record-path"),
 ]
 
 
